@@ -156,6 +156,51 @@ func genProg(rng *rand.Rand, depth int, eoas []common.Address, fresh func() comm
 			p.plan = append(p.plan, pstep{kind: "log"})
 		}
 	}
+	// call an already-called (hence warm) child once more, without value: between a preceding
+	// precompile call and the child's first action nothing is journaled then
+	if genCreates || len(genPcQueries) > 0 {
+		var called []*pnode
+		for _, st := range p.plan {
+			if st.kind == "call" && (st.call == evmasm.Call || st.call == evmasm.DelegateCall) {
+				called = append(called, st.child)
+			}
+		}
+		if len(called) > 0 && rng.Intn(3) == 0 {
+			child := called[rng.Intn(len(called))]
+			if len(genPcQueries) > 0 && rng.Intn(2) == 0 {
+				// a precompile call right before, preferably a query; and the child begins with a precompile call too
+				var qs, txs []pcQuery
+				for _, q := range genPcQueries {
+					if q.tx {
+						txs = append(txs, q)
+					} else {
+						qs = append(qs, q)
+					}
+				}
+				pick := genPcQueries[rng.Intn(len(genPcQueries))]
+				if len(qs) > 0 && rng.Intn(3) > 0 {
+					pick = qs[rng.Intn(len(qs))]
+				}
+				kind := "pcquery"
+				if pick.tx {
+					kind = "pctx"
+				}
+				p.plan = append(p.plan, pstep{kind: kind, to: pick.to, data: pick.data})
+				if rng.Intn(2) == 0 {
+					first := genPcQueries[rng.Intn(len(genPcQueries))]
+					if len(txs) > 0 && rng.Intn(3) > 0 {
+						first = txs[rng.Intn(len(txs))]
+					}
+					fk := "pcquery"
+					if first.tx {
+						fk = "pctx"
+					}
+					child.plan = append([]pstep{{kind: fk, to: first.to, data: first.data}}, child.plan...)
+				}
+			}
+			p.plan = append(p.plan, pstep{kind: "recall", child: child, fail: evmasm.OnFail(rng.Intn(2))})
+		}
+	}
 	endPick := rng.Intn(9)
 	if genSelfDestruct { // the failing-frame family: more reverts and self-destructs
 		endPick = []int{0, 0, 1, 2, 3, 3, 3, 8, 8, 8}[rng.Intn(10)]
@@ -204,6 +249,8 @@ func deployProg(n *vn.Node, from vn.Account, p *pnode) ([]common.Address, error)
 			p.steps = append(p.steps, evmasm.SStore{Slot: st.slot, Val: 0})
 		case "log":
 			p.steps = append(p.steps, evmasm.Log{Topic: 42})
+		case "recall":
+			p.steps = append(p.steps, evmasm.CallStep{Kind: evmasm.Call, To: st.child.addr, Fail: st.fail, Data: []byte{1}})
 		case "create":
 			p.steps = append(p.steps, evmasm.Create{Init: evmasm.InitCode([]evmasm.Step{evmasm.SStore{Slot: 1, Val: 1}}, []evmasm.Step{evmasm.Stop{}}), Value: st.val, Fail: evmasm.Ignore})
 		case "pctx":
